@@ -66,6 +66,7 @@ type Ctx struct {
 	usedGhost   bool
 	tainted     map[string]bool
 	guardType   string
+	asmSimSpec  string
 	skipRun     bool // the harness declared this case combination redundant (verif.SkipRun)
 	shadow      bool // contracts in use mode also run the real function and record (havoc variable, real value) pairs
 	fresh2      int
